@@ -133,7 +133,8 @@ class Norm:
     atomizer(expr, norm) -> Poly|None lets a rule override the treatment of a
     construct.  scalar(atom) -> bool marks atoms that commute out of matmul."""
 
-    def __init__(self, env=None, atomizer=None, scalar=None, strict=True):
+    def __init__(self, env=None, atomizer=None, scalar=None, strict=True, consts=None):
+        self.consts = consts or {}      # module-level constants: name -> value expression
         self.env = env or {}
         self.atomizer = atomizer
         self.scalar = scalar or (lambda a: False)
@@ -173,6 +174,8 @@ class Norm:
         return Poly.atom(("str", v))
 
     def n_Name(self, e):
+        if e.id in self.consts and e.id not in self.env:
+            return self.n(self.consts[e.id])
         if e.id in self.env and e.id not in self._stack:
             self._stack.append(e.id)
             try:
@@ -198,8 +201,13 @@ class Norm:
 
     def slice_key(self, s):
         if isinstance(s, ast.Slice):
-            return ("slice", self.key(s.lower) if s.lower else None, self.key(s.upper) if s.upper else None,
-                    self.key(s.step) if s.step else None)
+            lo = s.lower
+            if isinstance(lo, ast.Constant) and lo.value == 0:
+                lo = None          # a[0:n] == a[:n]
+            st = s.step
+            if isinstance(st, ast.Constant) and st.value == 1:
+                st = None
+            return ("slice", self.key(lo) if lo else None, self.key(s.upper) if s.upper else None, self.key(st) if st else None)
         if isinstance(s, ast.Tuple):
             return tuple(self.slice_key(x) for x in s.elts)
         if isinstance(s, ast.Constant) and s.value is Ellipsis:
@@ -211,7 +219,21 @@ class Norm:
         return self.key(s)
 
     def n_Subscript(self, e):
+        v = e.value
+        if isinstance(v, ast.Call):
+            nm = ast.unparse(v.func)
+            if nm == "np.arange" and len(v.args) == 1 and not isinstance(e.slice, (ast.Slice, ast.Tuple, ast.Constant)):
+                return Poly.atom(("rows", self.bool_key(e.slice)))          # np.arange(n)[mask]
+            if nm in ("np.where", "np.nonzero") and len(v.args) == 1 and isinstance(e.slice, ast.Constant) and e.slice.value == 0:
+                return Poly.atom(("rows", self.bool_key(v.args[0])))        # np.where(mask)[0]
         return Poly.atom(("idx", self.key(e.value), self.slice_key(e.slice)))
+
+    def bool_key(self, e):
+        """key of a boolean-array expression (comparison/logical forms normalised, plain arrays as their key)"""
+        if isinstance(e, (ast.Compare, ast.BoolOp)) or (isinstance(e, ast.UnaryOp) and isinstance(e.op, (ast.Not, ast.Invert))) \
+                or (isinstance(e, ast.BinOp) and isinstance(e.op, (ast.BitAnd, ast.BitOr))):
+            return ("b", self.b(e))
+        return ("k", self.key(e))
 
     # ------------------------------------------------------------- arithmetic
     def n_UnaryOp(self, e):
@@ -317,6 +339,20 @@ class Norm:
         if name == "np.square" and len(e.args) == 1:
             x = self.n(e.args[0])
             return x * x
+        if name == "np.sort" and len(e.args) == 1 and not e.keywords and isinstance(e.args[0], ast.Call) and ast.unparse(e.args[0].func) == "np.unique":
+            return self.n(e.args[0])          # np.unique already returns sorted values
+        if name == "np.flatnonzero" and len(e.args) == 1:
+            return Poly.atom(("rows", self.bool_key(e.args[0])))
+        if name == "np.column_stack" and len(e.args) == 1:
+            return self.transpose(Poly.atom(("call", "np.vstack", (self.key(e.args[0]),), ())))
+        if name in ("np.all", "np.any", "all", "any") and e.args:
+            return Poly.atom(("bexpr", self.b(e)))
+        if isinstance(f, ast.Attribute) and f.attr in ("all", "any") and not (isinstance(f.value, ast.Name) and f.value.id in ("np", "numpy")):
+            return Poly.atom(("bexpr", self.b(e)))
+        if isinstance(f, ast.Attribute) and f.attr in ("ravel", "flatten") and not e.args and not e.keywords:
+            return Poly.atom(("fn", "flatten", self.key(f.value)))
+        if name in ("np.ravel",) and len(e.args) == 1:
+            return Poly.atom(("fn", "flatten", self.key(e.args[0])))
         if name in ("np.negative",) and len(e.args) == 1:
             return -self.n(e.args[0])
         if name in ELEMENTWISE_FUNCS and len(e.args) == 1 and not e.keywords:
@@ -338,6 +374,8 @@ class Norm:
                 return self.transpose(self.n(f.value))
             if f.attr == "copy" and not e.args and not e.keywords:
                 return self.n(f.value)
+            if f.attr == "reshape" and len(e.args) == 1 and isinstance(e.args[0], ast.Attribute) and e.args[0].attr == "shape":
+                return self.n(f.value)      # x.reshape(y.shape): element order is kept; rules compare element-wise content
             if f.attr == "astype" and len(e.args) == 1:
                 return Poly.atom(("astype", self.key(f.value), ast.unparse(e.args[0])))
         if name in ("np.clip",):
@@ -464,8 +502,36 @@ class Norm:
             return self.b(ast.BoolOp(op=ast.And(), values=parts), neg, integer)
         if isinstance(e, ast.Call):
             nm = ast.unparse(e.func)
+            # all / any over a boolean array, function or method form:  any(P) == not all(not P)
+            red = None
+            if nm in ("np.all", "np.any", "all", "any") and e.args:
+                red, inner, pos = nm.split(".")[-1], e.args[0], 1
+            elif isinstance(e.func, ast.Attribute) and e.func.attr in ("all", "any") and not (isinstance(e.func.value, ast.Name) and e.func.value.id in ("np", "numpy")):
+                red, inner, pos = e.func.attr, e.func.value, 0
+            if red is not None:
+                ax = None
+                for k in e.keywords:
+                    if k.arg == "axis":
+                        ax = self.key(k.value)
+                if ax is None and len(e.args) > pos:
+                    ax = self.key(e.args[pos])
+                p = self.b(inner, False, integer)
+                # any(P) == not all(not P) is exact for equality tests and plain boolean arrays; for ORDER comparisons
+                # on floats `not (x < 0)` differs from `x >= 0` when x is NaN, so those keep a distinct ('any', ..) form
+                ordering = p[0] == "cmp" and p[1] in ("<", "<=")
+                if red == "all":
+                    form = ("all", p, ax)
+                elif ordering:
+                    form = ("any", p, ax)
+                else:
+                    form = ("not", ("all", negate(p), ax))
+                return negate(form) if neg else form
             if nm in ("np.logical_not",) and len(e.args) == 1:
                 return self.b(e.args[0], not neg, integer)
+            if nm in ("np.isin", "np.in1d") and len(e.args) >= 2:
+                inv = any(k.arg == "invert" and ast.unparse(k.value) == "True" for k in e.keywords)
+                form = ("isin", self.key(e.args[0]), self.key(e.args[1]))
+                return negate(form) if (neg != inv) else form
             if nm in ("np.logical_and", "np.logical_or") and len(e.args) == 2:
                 op = ast.BitAnd() if nm.endswith("and") else ast.BitOr()
                 return self.b(ast.BinOp(left=e.args[0], op=op, right=e.args[1]), neg, integer)
@@ -503,6 +569,8 @@ def negate(b):
             return ("cmp", "<=", (-p).key())
         if op == "<=":
             return ("cmp", "<", (-p).key())
+    if b[0] == "isin":
+        return ("not", b)
     if b[0] in ("in", "notin"):
         return ("notin" if b[0] == "in" else "in",) + b[1:]
     if b[0] in ("is", "isnot"):
